@@ -44,7 +44,7 @@ def _strip_generics(path):
     r = ''.join(out)
     if "'" in r:
         r = re.sub(r"'[A-Za-z_][A-Za-z0-9_]*(, )?", '', r)
-        r = r.replace('<>', '').replace('&mut  ', '&mut ')
+        r = r.replace('<>', '').replace('&mut  ', '&mut ').replace('& mut ', '&mut ').replace('& ', '&')
     return r
 
 
